@@ -171,6 +171,11 @@ CtorSpNegStimuli ==
 ModeArgStimuli ==
   {St("k_mode_arg", [N |-> 3, op |-> o, mode |-> m], IF m \in 0..2 THEN "ok" ELSE "mode_in_range") :
      o \in {"normalize_wf", "normalize_mode", "redistribute", "arrange_wf"}, m \in {0, 2, 3, 5, 0 - 1, 0 - 3}}
+\* the weights pseudo-mode -1 together with factor modes: data short by less than one block, or sufficient
+UpdateWeightsStimuli ==
+  {St("k_update", [rows |-> <<2, 3, 2>>, R |-> 2, modes |-> m, datalen |-> d],
+      IF d >= SumSeq([k \in 1..Len(m) |-> IF m[k] = 0 - 1 THEN 2 ELSE <<2, 3, 2>>[m[k] + 1] * 2]) THEN "ok" ELSE "data_length") :
+     m \in {<<0 - 1>>, <<0 - 1, 0>>, <<0 - 1, 1, 2>>}, d \in {1, 2, 4, 5, 6, 11, 12}}
 UpdateRepStimuli ==
   {St("k_update", [rows |-> <<2, 3, 2>>, R |-> 2, modes |-> m, datalen |-> 24], "modes_distinct") : m \in {<<0, 0>>, <<1, 2, 1>>}}
 ReconstructStimuli ==
@@ -198,7 +203,7 @@ All ==
         ELSE {})
   \cup (IF "more" \in Fams THEN ArrangeStimuli \cup UpdateStimuli \cup SpReshapeStimuli \cup CtorTenmatStimuli
                                \cup CtorSptenmatStimuli \cup CtorSpNegStimuli ELSE {})
-  \cup (IF "args" \in Fams THEN ModeArgStimuli \cup UpdateRepStimuli \cup ReconstructStimuli \cup TuckerRankStimuli
+  \cup (IF "args" \in Fams THEN ModeArgStimuli \cup UpdateRepStimuli \cup UpdateWeightsStimuli \cup ReconstructStimuli \cup TuckerRankStimuli
                                \cup OptdimsStimuli \cup CtorSptenmatNegStimuli ELSE {})
 
 \* keep the well-formed requests and those violating exactly one clause
